@@ -28,6 +28,7 @@ import (
 	"regexp"
 	"strconv"
 	"strings"
+	"sync"
 
 	"github.com/compose-spec/compose-go/v2/consts"
 	"github.com/compose-spec/compose-go/v2/errdefs"
@@ -86,9 +87,14 @@ type Options struct {
 	Listeners []Listener
 }
 
-var versionWarning []string
+var (
+	versionWarning   []string
+	versionWarningMu sync.Mutex
+)
 
 func (o *Options) warnObsoleteVersion(file string) {
+	versionWarningMu.Lock()
+	defer versionWarningMu.Unlock()
 	if !slices.Contains(versionWarning, file) {
 		logrus.Warning(fmt.Sprintf("%s: the attribute `version` is obsolete, it will be ignored, please remove it to avoid potential confusion", file))
 	}
